@@ -7,6 +7,44 @@ pub fn run(a: &Args) -> i32 {
     crate::scenarios::run_for(&mut run, "C02");
     crate::matrix::run_for(&mut run, "C02");
     let (ev, dn, samples) = crate::props::crash::run_part(&mut run, a, "C02");
+    // The weakest restart of all: a clean close and reopen in the middle of a history whose
+    // placement (flushes, compaction rounds, value-log clean-up) is generated. What was
+    // committed before the reopen must be read back after it, values in the value log
+    // included; only failures at or after a reopen count here (the rest is C06 / C11).
+    let (ev2, dn2) = {
+        surrealkv::verif::set_manual_background(true);
+        let c = crate::campaign::Campaign {
+            histories: a.tier.pick(60, 800),
+            variants: a.tier.pick(4, 8),
+            gen: crate::e1::GenParams { steps: 110, nkeys: 10, readers: false, cursors: false, reader_pending: false, reopen: true, delete_pct: 30, placement_pct: 45, big_values: true, ..Default::default() },
+            ver: crate::cfg::VerMode::Off,
+            vlog: crate::cfg::VlogMode::On,
+            exec: crate::e1::ExecOpts { fresh_battery: true, ..Default::default() },
+            tweak: |c, r| {
+                c.max_memtable_size = 4 << 20;
+                c.vlog_max_file = *r.pick(&[256, 1024, 4096]);
+                c.vlog_threshold = *r.pick(&[0, 16, 64]);
+            },
+            nontrivial: |s| s.compactions_changed > 0 && s.reopens > 0,
+            minimise_budget: 100,
+        };
+        let out = crate::campaign::run_campaign(&c, a.seed ^ 0xC02, "c02r");
+        let mut reported = 0;
+        for f in &out.failures {
+            let reopened = f.steps.iter().take(f.violation.step + 1).any(|s| matches!(s, crate::e1::Step::Reopen));
+            if reopened && reported < 4 {
+                reported += 1;
+                run.violation(
+                    &format!("[after_clean_restart] step {} (after a close and reopen of the store): [{}] {}", f.violation.step, f.violation.class, f.violation.what),
+                    crate::campaign::failure_replay(f, &c.exec),
+                );
+            }
+        }
+        run.cov("clean_restart_histories", crate::campaign::stats_json(&out.stats));
+        surrealkv::verif::set_manual_background(false);
+        (out.evaluations, out.distinct.len() as u64)
+    };
+    let (ev, dn) = (ev + ev2, dn + dn2);
     run.assumptions = vec![
         "crash points = every file-system operation boundary of the traced executions (LD_PRELOAD recorder), plus byte cuts inside unsynced WAL / value-log writes".into(),
         "power-loss model as stated in the property: namespace operations kept in order; per file the content at its last completed fsync plus a chosen part of what was written since".into(),
